@@ -611,10 +611,33 @@ def m_big_setint64(ex, st, args, ins, fn):
     return bigset(ex, st, args[0], x if isinstance(x, int) else z3.BV2Int(x, True))
 
 
+def ubv2int(ex, st, x, depth=3):
+    """unsigned BV -> Int, with the (valid) carry lemmas for sums and differences: the solvers do not
+    relate ubv_to_int(a-b) to ubv_to_int(a)-ubv_to_int(b) on their own"""
+    r = z3.BV2Int(x, False)
+    if depth <= 0 or not z3.is_app(x):
+        return r
+    k = x.decl().kind()
+    n = x.size()
+    if k in (z3.Z3_OP_BADD, z3.Z3_OP_BSUB) and x.num_args() == 2:
+        a, b = x.arg(0), x.arg(1)
+        A = a.as_long() if z3.is_bv_value(a) else ubv2int(ex, st, a, depth - 1)
+        B = b.as_long() if z3.is_bv_value(b) else ubv2int(ex, st, b, depth - 1)
+        if k == z3.Z3_OP_BADD:
+            lem = r == A + B - z3.If(z3.ULT(x, a), z3.IntVal(2 ** n), z3.IntVal(0))
+        else:
+            lem = r == A - B + z3.If(z3.ULT(a, b), z3.IntVal(2 ** n), z3.IntVal(0))
+        key = ('u2ilem', x.get_id())
+        if key not in st.ghost:
+            st.ghost[key] = True
+            ex.add_constraint(st, lem)
+    return r
+
+
 @model('(*math/big.Int).SetUint64')
 def m_big_setuint64(ex, st, args, ins, fn):
     x = args[1]
-    return bigset(ex, st, args[0], x if isinstance(x, int) else z3.BV2Int(x, False))
+    return bigset(ex, st, args[0], x if isinstance(x, int) else ubv2int(ex, st, x))
 
 
 @model('(*math/big.Int).Set')
